@@ -7,6 +7,7 @@ import random
 from .. import checks, gen, session
 from ..ops import execute, node_time
 from ..session import Monitor, violation
+from . import c06 as _c06
 from . import common
 
 PROP = "C03"
@@ -309,7 +310,8 @@ def run_shard(spec):
 
     # an empty forest needs p_empty=1: handled by max_per_frame 0 below
     return common.run_sessions(spec, PROP, make_monitors, cf, nsteps=(15, 30),
-                               weights=WEIGHTS, history_share=0.25)
+                               weights=WEIGHTS, history_share=0.25,
+                               tail=_c06.TAIL, tail_share=0.3)
 
 
 def floors(tier):
